@@ -52,10 +52,23 @@ def formula_set(tier):
     return out
 
 
+WIDE_I = F.I_BIG + ((0, 8), (8, 8), (1, 8), (0, 16), (16, 16), (2, 9))
+
+
+def wide_set(tier):
+    """one temporal operator with a wide window (bounds 4 ... 16) on traces of up to 7 samples over a two-letter alphabet"""
+    fs = [(op, I, PXa) for op in ('once', 'historically', 'eventually', 'always') for I in WIDE_I]
+    fs += [('since', I, PXa, PYa) for I in WIDE_I[:6]] + [('not', ('once', (0, 8), ('not', PXa))), ('or', ('historically', (4, 4), PXa), PYa)]
+    return fs
+
+
 def shards(tier):
     fs = formula_set(tier)
     per = 10 if tier == 'quick' else 4
-    return [{'formulas': [F.to_json(f) for f in fs[i:i + per]]} for i in range(0, len(fs), per)]
+    out = [{'formulas': [F.to_json(f) for f in fs[i:i + per]]} for i in range(0, len(fs), per)]
+    ws = wide_set(tier)
+    out += [{'formulas': [F.to_json(f) for f in ws[i:i + 3]], 'wide': True} for i in range(0, len(ws), 3)]
+    return out
 
 
 def neighbours(w, vs, r):
@@ -151,8 +164,11 @@ def run_shard(shard, tier, res):
         text = 'out = ' + F.pr(f)
         res.formulas += 1
         n = 3 if len(vs) == 1 else 2
+        values = F.V5
+        if shard.get('wide'):
+            n, values = ((6 if tier == 'quick' else 8) if len(vs) == 1 else (3 if tier == 'quick' else 4)), (-2.0, 1.0)
         for kind, pastify in plans_for(f):
-            for ti, t in enumerate(F.traces(n, F.V5, len(vs))):
+            for ti, t in enumerate(F.traces(n, values, len(vs))):
                 w = F.trace_dict(t, vs)
                 # the neighbourhood oracle does not depend on the monitor kind: it runs for the discrete offline monitor and for
                 # every other kind on the dense/online readings as well (their Boolean semantics differ for dense time)
